@@ -10,7 +10,7 @@ import time
 import traceback
 
 VERIF = os.path.dirname(os.path.dirname(os.path.abspath(__file__)))
-REPO = "/repo"
+REPO = os.environ.get("PYVC_REPO", "/repo")   # scratch copies for seeded-change evaluation only; registered commands never set it
 VENV_PY = "/venv/bin/python"
 
 
